@@ -150,7 +150,7 @@ PROPS = {
     ),
     'C18': dict(
         level='proof',
-        contracts=['C18'],
+        contracts=['C18', 'C12'],
         frames=[],
         technique='deductive: loop-invariant VCs (three nested loops, cut lemmas) from the real AST of parse_qsl over z3 strings, '
                   'z3 then cvc5; bounded check of list promotion and of the encode->parse round trip as replay harness',
@@ -225,7 +225,7 @@ PROPS = {
         level_note='Depth bound and universes are stated in coverage.bounded.bound.',
     ),
     'C01': dict(
-        level='other', contracts=['C02'], frames=[],
+        level='other', contracts=['C02', 'C01'], frames=[],
         technique='bounded run-time contract check: RadiRouter.resolve / Ombott.__call__ against an independent rule-by-rule spec matcher '
                   'over enumerated rule lists and paths; proved side obligations on RadiRouter.resolve (result assembly)',
         explanation='BOUNDED: ordered rule lists (singletons of a 4641-rule universe, pairs, prefix-sharing families, random lists) x all short '
@@ -253,7 +253,7 @@ PROPS = {
         level_note='Bounds are stated in coverage.bounded.bound.',
     ),
     'C12': dict(
-        level='other', contracts=['C05', 'body_read', 'C18', 'C12', 'fieldstorage', 'body_access'], frames=['errors_map_const'],
+        level='other', contracts=['C05', 'body_read', 'C18', 'C12', 'fieldstorage', 'body_access', 'C03'], frames=['errors_map_const'],
         technique='bounded run-time contract check of grammar-mutated bodies through Ombott.__call__ (status class, delivered fields complete); '
                   'proved exception frames of _iter_chunked, _body_read, _raise, _get_body_string, json; termination of the readers and of parse_qsl',
         explanation='BOUNDED grammar mutations, truncations, byte mutations, small-scope bodies; proved: _iter_chunked raises only BodyParsingError, '
